@@ -89,9 +89,11 @@ def op_offsets(writer, unit, ops):
 class LocSection:
     """.debug_loc (DWARF 2-4) and .debug_loclists (DWARF 5) builders."""
 
-    def __init__(self):
+    def __init__(self, nindexed=0):
         self.loc = bytearray()
-        self.loclists = bytearray(struct.pack("<IHBBI", 0, 5, 8, 0, 0))   # length patched at the end
+        # header + a table of NINDEXED list offsets (relative to the table, i.e. to DW_AT_loclists_base = 12), for DW_FORM_loclistx
+        self.loclists = bytearray(struct.pack("<IHBBI", 0, 5, 8, 0, nindexed) + b"\xff" * (4 * nindexed))   # length patched at the end
+        self.hdr = 12 + 4 * nindexed
 
     def add_loc(self, writer, unit, base, entries):
         """entries: [('range', begin, end, ops) | ('base', addr)], offsets relative to the current base.
@@ -110,9 +112,12 @@ class LocSection:
         self.loc += struct.pack("<QQ", 0, 0)
         return off, exp
 
-    def add_loclists(self, writer, unit, base, entries):
-        """entries: ('offset_pair', b, e, ops) | ('base', addr) | ('start_end', a, b, ops) | ('start_length', a, n, ops)"""
+    def add_loclists(self, writer, unit, base, entries, index=None):
+        """entries: ('offset_pair', b, e, ops) | ('base', addr) | ('start_end', a, b, ops) | ('start_length', a, n, ops)
+        INDEX: slot of the offset table that is to point at this list."""
         off = len(self.loclists)
+        if index is not None:
+            self.loclists[12 + 4 * index:16 + 4 * index] = struct.pack("<I", off - 12)
         cur = base
         exp = []
         for e in entries:
@@ -132,7 +137,7 @@ class LocSection:
 
     def finish(self):
         ll = bytes(self.loclists)
-        if len(ll) > 12:
+        if len(ll) > self.hdr:
             ll = struct.pack("<I", len(ll) - 4) + ll[4:]
         else:
             ll = b""
